@@ -184,6 +184,11 @@ Definition supp_ok (q p : nat) (kv : list Z) (supp : list (nat * nat)) (nnodes n
 (* the value of the generated `self.nqp = ...` expression on the degree lists of both spaces *)
 Definition nqp_ok (cases : list (list nat * list nat * nat)) : bool :=
   forallb (fun c => Nat.eqb (nqp_spaces (fst (fst c)) (snd (fst c))) (snd c)) cases.
+(* gen_assign of a variable at offset ofs: the slots it assigns, in the emitted order = the keys of [writes] of
+   coq/C01/Kernel3.v (symmetric: only i <= j, through sym_index_to_seq; otherwise row-major 0 .. sz-1) *)
+Definition symw_ok (m ofs : nat) (impl : list nat) : bool :=
+  leqb (map (fun ij => ofs + sym_index_to_seq m (fst ij) (snd ij)) (assigned_entries m m true)) impl.
+Definition roww_ok (sz ofs : nat) (impl : list nat) : bool := leqb (map (Nat.add ofs) (seq 0 sz)) impl.
 Fixpoint bad (cs : list (nat * bool)) : list nat :=
   match cs with [] => [] | (k, b) :: r => if b then bad r else k :: bad r end.
 '''
@@ -297,6 +302,23 @@ def form_layout_cases(spec, r):
             cases.append(('form %s: var_ref of %s in %s' % (spec['id'], v['name'], arr),
                           '%s && slot_ok %s %d %s' % (cbool(okfmt), vars_, k, cidx(sl)),
                           {'code': spec['code'], 'array': arr, 'var': v}))
+    # the assignment statements of every computed variable that lives in fields[]/constants[]: slots in the emitted order
+    for arr in ('fields', 'constants'):
+        a = r['arrays'].get(arr)
+        if not a:
+            continue
+        seqs = [int(re.match(r'^%s\[(\d+)\]$' % arr, st[0]).group(1)) for st in r.get('pre_stmts', []) + r.get('kernel_stmts', [])
+                if st[1] == '=' and re.match(r'^%s\[(\d+)\]$' % arr, st[0])]
+        for v in a['vars']:
+            mine = [x for x in seqs if v['ofs'] <= x < v['ofs'] + v['sz']]
+            if not mine:
+                continue        # an input field / parameter: loaded, not assigned
+            if v['symmetric']:
+                cases.append(('form %s: gen_assign slots of symmetric %s' % (spec['id'], v['name']),
+                              'symw_ok %d %d %s' % (v['shape'][0], v['ofs'], clist(mine)), {'code': spec['code'], 'array': arr, 'var': v['name'], 'impl': mine}))
+            else:
+                cases.append(('form %s: gen_assign slots of %s' % (spec['id'], v['name']),
+                              'roww_ok %d %d %s' % (v['sz'], v['ofs'], clist(mine)), {'code': spec['code'], 'array': arr, 'var': v['name'], 'impl': mine}))
     if r.get('nqp_values') is not None:
         ok = r.get('nqp_expr') is not None and len(r['nqp_values']) > 0 and all(v[2] >= 0 for v in r['nqp_values'])
         cases.append(('form %s: nqp' % spec['id'],
@@ -789,6 +811,7 @@ def run(ctx):
     thorough = ctx.tier == 'thorough'
     rng = ctx.rng
     ctx.obligations_stage(PROPS, extra_targets=['C01/Examples.vo'], gate_dirs=['C06'])
+    ctx.obligations_stage('C01/Props2.v', extra_targets=['C01/Examples2.vo'], gate_dirs=['C06'])
     ctx.assumptions += [
         'PARTIAL: layers 2 and 3 (storage layout, index walking, Gauss index range, early return, bbox shift, '
         'assemble_vector order, nqp) are Coq theorems about coq/C01/Model.v; layer 1 is C06; layer 4 (Cython, gcc -O3 '
@@ -797,6 +820,9 @@ def run(ctx):
         'gen_pderiv (codegen/cython.py), from_seq*/next_lexicographic*/intersect_intervals (assemble_tools_cy.pyx), '
         'the generated entry_impl/combine loop structure, mesh_support_idx_all, gauss_rule',
         'entry_is_full_gauss_sum takes the locality of the integrand terms (C02 N_local + (bi)linearity of the form) as hypothesis',
+        'symmetric variables in the program model (coq/C01/Kernel3.v, Props2.v): tie = for every generated form and every computed variable '
+        'stored in fields[]/constants[] the slots its gen_assign statements assign, in the emitted order, equal the keys of the model\'s [writes] '
+        '(symmetric: ofs + sym_index_to_seq over i <= j; otherwise ofs .. ofs+sz-1), compared inside Coq; var_ref of both index orders = slot_ok cases',
         'tie (exact): every layout function is called on synthetic inputs and on every generated form; sizes, offsets, slots, '
         'derivative strides/offsets/axes, support index ranges, nodes per span are compared inside Coq with the model',
         'program model (coq/C01/Kernel.v) <-> generated text: every var_ref slot equals the model slot (exact, in Coq); in the text of '
@@ -889,7 +915,7 @@ def run(ctx):
     ndis = 0
     # self-test of the comparison (same run, same definitions): a perturbed expectation must be flagged
     selftest = ('C01_selftest', HEADER + 'Definition cases : list (nat * bool) := [(0, sym_ok 3 [[0;1;2];[1;3;4];[2;4;5]]); '
-                '(1, sym_ok 3 [[0;1;2];[1;3;4];[2;5;4]]); (2, pd_ok 2 1 [1;0] [(0,2,0);(1,2,1)]); (3, pd_ok 2 1 [1;0] [(0,2,1);(1,2,0)])].\n'
+                '(1, sym_ok 3 [[0;1;2];[1;3;4];[2;5;4]]); (2, pd_ok 2 1 [1;0] [(0,2,0);(1,2,1)]); (3, pd_ok 2 1 [1;0] [(0,2,1);(1,2,0)]); (4, symw_ok 2 4 [4;5;6]); (5, symw_ok 2 4 [4;5;5;6]); (6, roww_ok 3 2 [2;3;4]); (7, roww_ok 3 2 [2;4;3])].\n'
                 'Eval vm_compute in bad cases.\n')
     # the Coq printer against the generated characters (token streams compared inside Coq)
     pfiles, pchunks = [], []
@@ -928,7 +954,7 @@ def run(ctx):
     ctx.cov['print_cases'] = len(print_cases)
     (_, sok, sout) = evald[-1]
     ctx.obligations += 1
-    if sok and parse_coq_list_of_nat(sout) == [1, 3]:
+    if sok and parse_coq_list_of_nat(sout) == [1, 3, 5, 7]:
         ctx.discharged += 1
     else:
         ctx.broken.append('harness self-test C01_selftest: perturbed layout cases were not flagged exactly (%s)' % sout[-300:])
@@ -1057,7 +1083,10 @@ META = {
                   'fields[]/constants[], then the kernel definitions per entry from a store that is arbitrary on locals, gives the C06 value of the whole '
                   'forest pre ++ ker (precompute_then_kernel_equals_forest). Symmetric variables: writing the upper triangle through sym_index_to_seq makes '
                   'every read (i,j)/(j,i) return the expression entry when the expression is symmetric, nothing outside the block is touched '
-                  '(symmetric_storage_sound). Vector kernels: r[k] += ... and the loops are componentwise the scalar ones, so the Gauss-sum theorem holds per '
+                  '(symmetric_storage_sound); symmetric variables as a case of the program model (coq/C01/Kernel3.v: var_ref through storage_index, gen_assign '
+                  'writing only i <= j, layout injective on stored slots only): under the promise that the defining expression is symmetric at the node the '
+                  'kernel code and the two-phase program compute the C06 value of forests WITH symmetric variables (kernel_denotes_integrand_sym, '
+                  'gen_assign_sym_establishes_binding, precompute_then_kernel_equals_forest_sym; Examples2.v: the promise cannot be dropped). Vector kernels: r[k] += ... and the loops are componentwise the scalar ones, so the Gauss-sum theorem holds per '
                   'component block (kernel_body_accumulates_components, vector_loop_is_componentwise, entry_denotes_gauss_sum_component). Concrete syntax (coq/C01/Printer.v): the token '
                   'stream gencode_* prints (every binary node bracketed, prefix minus, f(...)) parses back, with the operator precedence of C, to the tree '
                   'it was printed from, for every tree (printed_code_parses_back). Front end = C06. Tied to /repo on every run by exact comparison (inside Coq) of sizes, offsets, slots, derivative '
